@@ -91,6 +91,12 @@ def run(ctx):
                                     "for_each over self.0.iter_mut() (every element)"))
         ctx.anchor("C15-R2", "stores in apply_additional_half_tone", len(sts), 1, b.loc())
         for bb, i, st, tgt, root, chain, val, gs, trav in sts:
+            # conditions the store depends on without being dominated by them (`a && b { return }`)
+            if trav is None:
+                try:
+                    gs = list(gs) + [g_ for g_ in paths.control_guards(b, bb, eb) if g_ not in gs]
+                except Exception:  # noqa: BLE001
+                    pass
             # target: <element of self.0>.0[0].0  -> chain ends with ['0', '[]', '0'] and the index is constant 0
             okt = chain[-3:] == ["0", "[]", "0"] and tgt[1][0] == "idx" and tgt[1][2][0] == "c" and tgt[1][2][1] == 0
             elem_src = show(tgt)
